@@ -155,13 +155,11 @@ def predictions(ctx, b, model_exe, gen_file, exp_abs, snap):
         up = s.name.upper()
         init = snap.get(f"Sdai{up}.init.cc", b"").decode("latin-1")
         for t in s.types():
-            # (a TYPE whose body is an aggregate of an *unnamed* aggregate gets no init code at all from exp2cxx:
-            #  TYPEprint_descriptions does nothing when TYPEget_RefTypeVarNm is 0 and the type is no enumeration)
-            if isinstance(t.body, SG.TAgg) and t.body.lo is not None and not isinstance(t.body.base, SG.TAgg):
+            if isinstance(t.body, SG.TAgg) and t.body.lo is not None:
                 for nr, bd in ((1, t.body.lo), (2, t.body.hi)):
-                    shape = {"lit": "lit", "inf": "inf", "neg": "op", "arith": "op", "const": "ident", "attr": "ident",
+                    shape = {"lit": "lit", "inf": "inf", "neg": "neglit", "arith": "op", "const": "ident", "attr": "ident",
                              "derived": "ident", "self": "runtime", "funcall": "funcall"}[bd.shape]
-                    txt = str(bd.value) if shape == "lit" else ("x" if shape == "inf" else bd.text())
+                    txt = str(bd.value) if shape == "lit" else ("x" if shape == "inf" else bd.text().lstrip("-") if shape == "neglit" else bd.text())
                     lines.append(f"bound {nr} {s.name}::t_{t.name} Sdai{s.name.capitalize()} {t.name} {shape} {txt.encode().hex()}")
                     meta.append((s, t, nr, bd, init))
         keys = [k for _, k, _ in s.symbol_keys()]
@@ -196,7 +194,7 @@ def predictions(ctx, b, model_exe, gen_file, exp_abs, snap):
             if not rl:
                 if f"Sdai{s.name.upper()}.init.cc" in snap:
                     dis.append(f"no SetBound{nr} line for type {t.name} in the real output, model predicts {want.strip()!r}")
-            elif bd.shape in ("funcall", "arith", "neg", "const") and rule == "literalOnly" or bd.shape == "funcall":
+            elif (bd.shape in ("funcall", "arith", "const") and rule != "legacy") or (bd.shape == "neg" and rule == "literalOnly") or bd.shape == "funcall":
                 # the text is EXPRto_string's rendering: compare modulo blanks (the pretty printer's spacing is C07's subject)
                 if re.sub(r"\s+", "", rl[0]).lower() != re.sub(r"\s+", "", want).lower():
                     dis.append(f"type {t.name} bound {nr}: real {rl[0].strip()!r} vs model {want.strip()!r}")
